@@ -487,13 +487,9 @@ def check_protocol(repo: Repo, rep: Report, h: Harness, jp: JavaProtocol) -> Non
     # ---- SGR-7 entry points ------------------------------------------------------------------
     smod = repo.mod(SOLVER)
     rep.saw(SOLVER, "_get_backend_by_name")
-    ev = fde.Evaluator()
-    genv: Dict[str, Any] = {}
-    for q, f in smod.funcs.items():
-        if "." not in q:
-            genv[q] = fde.FunctionValue(f, ev, genv)
-    genv["backend"] = Tag("backend")
-    genv["ValueError"] = lambda *a: Tag("ValueError")
+    from .solverworld import solver_world
+
+    genv = solver_world(repo).genv  # module-level tables of solver.py are evaluated as at import time
     for name, (cls, entry) in ENTRY.items():
         try:
             r = genv["_get_backend_by_name"](name)
